@@ -45,6 +45,14 @@ def main():
                 continue
             new = src.replace(m["old"], m["new"]) if m.get("all") else src.replace(m["old"], m["new"], 1)
             open(p, "w").write(new)
+            extra_saved = []
+            for (f2, o2, n2) in m.get("also", []):
+                p2 = os.path.join(repo, f2)
+                s2 = open(p2).read() if p2 != p else new
+                if o2 not in s2:
+                    print("SKIP-also %s pattern not found in %s" % (m["name"], f2))
+                extra_saved.append((p2, open(os.path.join("/repo", f2)).read()))
+                open(p2, "w").write(s2.replace(o2, n2) if m.get("all") else s2.replace(o2, n2, 1))
             try:
                 if m.get("benign"):
                     props = [x for x in all_props if not props_filter or x in props_filter]
@@ -72,6 +80,8 @@ def main():
                         else:
                             print("ok   %-32s %s -> %s" % (m["name"], pr, rule))
             finally:
+                for p2, orig in extra_saved:
+                    open(p2, "w").write(orig)
                 open(p, "w").write(src)
         # restore evidence written against the scratch copy
         shutil.rmtree(os.path.join(VERIF, "evidence"))
